@@ -429,6 +429,9 @@ def build_job1(job):
     brc, bout, berr = run("make -f converter-example.mk 2>&1", d, timeout=600, env=env)
     job["t_make"] = time.time() - t0
     errs = [l for l in bout.split("\n") if re.search(r"\berror\b|undefined reference|multiple definition|No rule to make|\*\*\*", l)]
+    # a constant of the generated tables that does not fit its C type changes value at compile time (gcc says so)
+    job["overflow"] = [l[:300] for l in bout.split("\n") if re.search(r"\[-Woverflow\]|integer constant is (so|too) large", l)
+                       and not os.path.exists(os.path.join(job["skel"], l.split(":")[0]))][:6]
     job["build_rc"], job["build_log"], job["warnings"] = brc, "\n".join(errs[:12]) if errs else bout[-1500:], len(re.findall(r"warning:", bout))
     # observation for DESIGN.md section 9 item 17 (not part of the verdict): do ALL emitted objects link together?
     if brc == 0 and job.get("oi") == 0:
